@@ -162,7 +162,8 @@ var c03Operands = []string{"s1", "s1", `"lit"`, "42", "st.Name", "true", "(s1)",
 
 var c03ArgRoutes = []string{"arg-if", "arg-elif", "arg-for", "arg-with", "arg-with-old", "arg-set", "arg-firstof", "arg-widthratio", "arg-cycle", "arg-ifchanged", "arg-ifequal",
 	"arg-include-with", "arg-lazy-name", "subscript", "call-arg", "array", "after-param", "filtertag-chain", "filtertag-chain2", "macro-default", "binary-operand", "negation"}
-var c03FileRoutes = []string{"included", "included-if-exists", "extended-base", "extended-child-block", "imported-macro", "ssi-parsed", "lazy", "lazy-nested", "included-nested"}
+var c03FileRoutes = []string{"included", "included-if-exists", "extended-base", "extended-child-block", "imported-macro", "ssi-parsed", "lazy", "lazy-nested", "included-nested",
+	"extended-child-toplevel", "extended-child-after-block"}
 var c03ControlRoutes = []string{"in-comment", "in-hash-comment", "in-verbatim", "in-string"}
 
 // carrier tags a route itself needs
@@ -174,6 +175,7 @@ var c03RouteTags = map[string][]string{
 	"arg-widthratio": {"widthratio"}, "arg-cycle": {"cycle"}, "arg-ifchanged": {"ifchanged"}, "arg-ifequal": {"ifequal"},
 	"arg-include-with": {"include"}, "arg-lazy-name": {"include"}, "filtertag-chain": {"filter"}, "filtertag-chain2": {"filter"}, "macro-default": {"macro"},
 	"included": {"include"}, "included-if-exists": {"include"}, "extended-base": {"extends", "block"}, "extended-child-block": {"extends", "block"},
+	"extended-child-toplevel": {"extends", "block"}, "extended-child-after-block": {"extends", "block"},
 	"imported-macro": {"import", "macro"}, "ssi-parsed": {"ssi"}, "lazy": {"include"}, "lazy-nested": {"include"}, "included-nested": {"include"},
 	"in-comment": {"comment"},
 }
@@ -383,6 +385,15 @@ func c03Build(op *c03Op, dir string, files map[string]string) {
 		main = `{% extends "` + dir + `/base.tpl" %}{% block qb %}child:` + snippet + `{% endblock %}`
 		files[dir+"/base.tpl"] = "(base:{% block qb %}d{% endblock %})"
 		addUse(mainTags, mainFilts)
+	case "extended-child-toplevel":
+		// outside any block of a child template: parsed, never rendered
+		main = `{% extends "` + dir + `/base.tpl" %}` + snippet + `{% block qb %}child{% endblock %}`
+		files[dir+"/base.tpl"] = "(base:{% block qb %}d{% endblock %})"
+		addUse(mainTags, mainFilts)
+	case "extended-child-after-block":
+		main = `{% extends "` + dir + `/base.tpl" %}{% block qb %}child{% endblock %} tail:` + snippet
+		files[dir+"/base.tpl"] = "(base:{% block qb %}d{% endblock %})"
+		addUse(mainTags, mainFilts)
 	case "imported-macro":
 		main = `{% import "` + dir + `/imp.tpl" im %}{{ im() }}`
 		files[dir+"/imp.tpl"] = "{% macro im() export %}(im:" + snippet + "){% endmacro %}"
@@ -440,7 +451,7 @@ func c03Build(op *c03Op, dir string, files map[string]string) {
 		fb("include", "mid.tpl", "inc.tpl")
 	case "lazy-nested":
 		fb("include", "inc.tpl", "deep.tpl")
-	case "extended-base", "extended-child-block":
+	case "extended-base", "extended-child-block", "extended-child-toplevel", "extended-child-after-block":
 		fb("extends", "base.tpl")
 	case "imported-macro":
 		fb("import", "imp.tpl")
@@ -778,6 +789,22 @@ func (s *c03Side) do(i int, op c03Op, withBans bool) (r *c03Res) {
 	return r
 }
 
+// c03MustWork: uses whose success the harness can vouch for without looking at the engine.
+func c03MustWork(u *c03Use, op *c03Op) bool {
+	if u == nil || u.Control || op.Fault || !strings.HasPrefix(u.Target, "probe_") {
+		return false
+	}
+	if u.Operand != "" && u.Operand != "s1" {
+		return false
+	}
+	for _, ar := range c03ArgRoutes {
+		if ar == u.Route {
+			return false
+		}
+	}
+	return true
+}
+
 // c03TargetBanned: is the op's own target (the thing the probes count) banned in this set?
 func c03TargetBanned(tags, filts map[string]bool, u *c03Use) bool {
 	if u == nil || u.Control {
@@ -1096,6 +1123,11 @@ opsLoop:
 					out.probe("control_route_ok")
 				} else if !res.failed() {
 					out.probe("unbanned_use_ok")
+				} else if c03MustWork(src.Use, &op) && res.Panic == "" {
+					// "everything not banned keeps working", in absolute terms where the harness
+					// knows the answer: its own probe tag / filter, written in the plain form, in a
+					// body or file route, no injected fault - the twin failing alike is no excuse
+					viol("unbanned_broken", key+" (probe must work)", fmt.Sprintf("op %d: a source that only uses the unbanned %q failed (and so did the ban-free twin)", i, src.Use.Target), "success", res)
 				}
 			}
 			if op.Kind == "create" {
